@@ -271,10 +271,22 @@ Proof.
   assert (Htag : tag_ok (f_tag f) = true).
   { unfold field_ok in Hok. rewrite Hs in Hok. apply andb_prop in Hok as [_ Hok]. apply andb_prop in Hok as [Hok _].
     apply andb_prop in Hok as [Hok _]. apply andb_prop in Hok as [_ Hok]. exact Hok. }
-  intros fuel r p L Hf HL Hp. rewrite flat_app, <- app_assoc in *. rewrite len_app in Hp. unfold field_action.
-  rewrite (bind_ok _ _ _ _ _ (dec_tag_check_enc (f_tag f) (flat z ++ r) p L Htag ltac:(lia))).
-  unfold try_unknown. rewrite Hrd; [|rewrite app_length in Hf; lia|assumption|lia].
-  rewrite len_app, N.add_assoc. reflexivity.
+  intros fuel r p L Hf HL Hp. rewrite flat_app, <- app_assoc in *. rewrite len_app in Hp.
+  assert (Hact : (dec_tag_check (f_tag f) ;;; try_unknown c (has_handler f) (dec_field_fn c recD f fuel))
+                   (mkdst p (flat (enc_tag_opt (f_tag f)) ++ flat z ++ r) L)
+                 = (Ok (Some (wval f v)), mkdst (p + len (flat (enc_tag_opt (f_tag f)) ++ flat z)) r L)).
+  { assert (Hp1 : p + len (flat (enc_tag_opt (f_tag f))) <= L) by lia.
+    rewrite (bind_ok _ _ _ _ _ (dec_tag_check_enc (f_tag f) (flat z ++ r) p L Htag Hp1)).
+    unfold try_unknown. rewrite Hrd; [|rewrite app_length in Hf; lia|assumption|lia].
+    rewrite len_app, N.add_assoc. reflexivity. }
+  unfold field_action. destruct (has_tag f && has_handler f) eqn:Eg; [|exact Hact].
+  (* a tagged optional field: what was written starts with the tag head, not with null *)
+  apply andb_prop in Eg as [Eg _]. unfold has_tag in Eg. destruct (f_tag f) as [t|] eqn:Et; [|discriminate].
+  cbn [enc_tag_opt] in *.
+  pose proof (hd_class_type_len TAGGED t (flat z ++ r) (or_intror (or_intror eq_refl))) as Hhd. fold (enc_tag t) in Hhd.
+  destruct (flat (enc_tag t) ++ flat z ++ r) as [|x rest] eqn:Eb; [discriminate|].
+  destruct (datatype_hd x rest p L Hhd) as (ty & Hd & Hn).
+  rewrite (bind_ok _ _ _ _ _ Hd), Hn. exact Hact.
 Qed.
 
 (* ---- lookup of a field by index in the sorted list ---- *)
